@@ -21,6 +21,7 @@ def main(tier, only=None):
         if not only:
             from relsmt import conform
             conform.run(rep, 'C02', thorough, families=('join', 'agg', 'topn'))
+            conform.run_hetero(rep, thorough)
     rep.cov['states'] = max(1, rep.cov['programs'])
     rep.cov['transitions'] = max(1, rep.cov['obligations'])
     rep.cov['traces_validated_against_impl'] = rep.cov['disagreements_checked']
